@@ -107,13 +107,19 @@ def check_emit(ctx):
     for b, i, e in one_call(ctx, a, "emit_physical_record"):
         ctx.check(e.get("use") in ("assign", "init", "ret", "cond"), "T4-emit-status", "add_record", a.name,
                   site(a, e), "status of emit_physical_record kept", "status of emit_physical_record dropped")
-    # the loop continues while data is left: `left > 0` is part of the loop condition with rc == OK
-    conds = [key(b.term["cond"]) for b in a.blocks.values() if b.term is not None and "cond" in b.term
-             and b.term["k"] == "DoStmt" or (b.term is not None and b.term.get("k") == "BinaryOperator")]
-    ctx.check(any("left > 0" in c for c in conds) and any("rc == 0" in c for c in conds),
+    # the loop goes round again iff rc == LDB_OK and bytes are left (whatever the loop is spelled as)
+    from ..rules import sequences_under
+    tok = lambda e: "emit" if is_call(e, "emit_physical_record") else ("ret" if e["e"] == "ret" else None)
+    end_of_round = lambda e: e["e"] == "asg" and key(e["lhs"]) == "begin" and const_val(e["rhs"]) == 0
+    ctx.require(any(end_of_round(e) for b, i, e in a.events("asg")), "ldb_writer_add_record: end of the fragment round not found")
+    outcomes = {}
+    for name, env in (("ok,left", {"rc": 0, "left": 5}), ("ok,done", {"rc": 0, "left": 0}), ("error,left", {"rc": 1, "left": 5})):
+        seqs = sequences_under(a, tok, lambda t, env=env: env.get(key(t)), start=end_of_round)
+        outcomes[name] = {("again" if ("emit" in x or "<loop>" in x) else "stop") for x in seqs}
+    ctx.check(outcomes == {"ok,left": {"again"}, "ok,done": {"stop"}, "error,left": {"stop"}},
               "T1-add-record-loop", "rc&&left", a.name, a.loc,
               "fragments are emitted while rc == LDB_OK and bytes are left",
-              "fragment loop condition changed: %s" % conds)
+              "fragment loop continuation changed: %s" % {k2: sorted(v) for k2, v in sorted(outcomes.items())})
 
 
 def check_header_agreement(ctx):
